@@ -36,6 +36,9 @@ def tlc_dump(ctx, spec, cfg, name, timeout, heap="6g", must_pass=True, tag=None)
 
 
 def fold(ctx, res, name, prefix, extra=None):
+    # vf writes replay files under /verif/evidence/replays whatever VERIF_EVIDENCE_DIR says;
+    # concurrent runs may have cleaned it away
+    os.makedirs(os.path.join(vf.VERIF, "evidence", "replays"), exist_ok=True)
     ctx.take_driver_result(res, prefix)
     info = {"cases": res["cases"], "drift": res["drift"], "drift_notes": res.get("drift_notes", []),
             "counters": res.get("counters", {}), "skipped": res.get("skipped", [])}
